@@ -40,6 +40,8 @@ type fexec struct {
 	defers  []deferRec
 	backFix map[*ssa.BasicBlock][]phiFix
 	parent  *fexec
+	// unrolling is set while the body of a `loop k unroll N` loop is being executed
+	unrolling *unrollState
 }
 
 type deferRec struct {
@@ -207,7 +209,11 @@ func (fx *fexec) run(st *State, args []Val) (exit *State, results []Val) {
 	for _, b := range order {
 		inOrder[b] = true
 	}
+	done := map[*ssa.BasicBlock]bool{}
 	for _, b := range order {
+		if done[b] {
+			continue // executed as part of an unrolled loop
+		}
 		var cur *State
 		if b.Index == 0 {
 			cur = st.clone()
@@ -218,6 +224,10 @@ func (fx *fexec) run(st *State, args []Val) (exit *State, results []Val) {
 			}
 		}
 		if li := fx.loops[b]; li != nil {
+			if ls := fx.loopSpec(li); ls != nil && ls.Unroll > 0 {
+				fx.unrollLoop(li, ls.Unroll, cur, order, done)
+				continue
+			}
 			cur = fx.enterLoop(li, cur)
 		} else {
 			fx.evalPhis(b, nil)
@@ -431,6 +441,17 @@ func (fx *fexec) execBlock(b *ssa.BasicBlock, st *State) {
 
 // finishEdge records the state of edge from->to; a back edge checks the loop invariant.
 func (fx *fexec) finishEdge(from, to *ssa.BasicBlock, st *State) {
+	if u := fx.unrolling; u != nil && u.li.body[from] {
+		if to == u.li.header {
+			u.backs = append(u.backs, unrollEdge{from: from, to: to, st: st})
+			return
+		}
+		if !u.li.body[to] {
+			// leaving the unrolled loop: remember the state and the values defined so far
+			u.exits = append(u.exits, unrollEdge{from: from, to: to, st: st, env: fx.snapshotEnv(u.li)})
+			return
+		}
+	}
 	if li := fx.loops[to]; li != nil && to.Dominates(from) {
 		fx.backEdge(li, from, st)
 		return
